@@ -16,6 +16,7 @@ import (
 	"strconv"
 	"strings"
 	"sync"
+	"sync/atomic"
 	"syscall"
 	"time"
 
@@ -143,7 +144,9 @@ type opInfo struct {
 func u64(s string) uint64 { v, _ := strconv.ParseUint(s, 10, 64); return v }
 func i64(s string) int64  { v, _ := strconv.ParseInt(s, 10, 64); return v }
 
-var sink uint64
+var sink uint64 // results of getters go here (atomically: the scripts run concurrently)
+
+func eat(v uint64) { atomic.AddUint64(&sink, v) }
 
 func compileTok(tok string, kt *keyTab) (oi opInfo, ok bool) {
 	f := strings.Split(tok, ".")
@@ -214,50 +217,50 @@ func compileTok(tok string, kt *keyTab) (oi opInfo, ok bool) {
 		oi = opInfo{func() { stats.VerifMeanAdd(m, v) }, fmt.Sprintf("OMeanAdd %s %d", midCoq[m], v), "incr", "mean:" + arg(1)}
 	// ---- reads
 	case "gu":
-		oi = opInfo{func() { sink += stats.URLsCrawledGet() }, "ORateGet RUrls", "read", ""}
+		oi = opInfo{func() { eat(stats.URLsCrawledGet()) }, "ORateGet RUrls", "read", ""}
 	case "gs":
-		oi = opInfo{func() { sink += stats.SeedsFinishedGet() }, "ORateGet RSeeds", "read", ""}
+		oi = opInfo{func() { eat(stats.SeedsFinishedGet()) }, "ORateGet RSeeds", "read", ""}
 	case "gh":
 		k := keyStr(arg(1))
-		oi = opInfo{func() { sink += stats.HTTPReturnCodesGet(k) }, fmt.Sprintf("ORateGet (RKey %d)", kt.id(arg(1))), "read", ""}
+		oi = opInfo{func() { eat(stats.HTTPReturnCodesGet(k)) }, fmt.Sprintf("ORateGet (RKey %d)", kt.id(arg(1))), "read", ""}
 	case "tu":
-		oi = opInfo{func() { sink += stats.VerifRateGetTotal(0) }, "ORateGetTotal RUrls", "read", ""}
+		oi = opInfo{func() { eat(stats.VerifRateGetTotal(0)) }, "ORateGetTotal RUrls", "read", ""}
 	case "ts":
-		oi = opInfo{func() { sink += stats.VerifRateGetTotal(1) }, "ORateGetTotal RSeeds", "read", ""}
+		oi = opInfo{func() { eat(stats.VerifRateGetTotal(1)) }, "ORateGetTotal RSeeds", "read", ""}
 	case "th":
 		k := keyStr(arg(1))
-		oi = opInfo{func() { sink += stats.VerifBucketGetTotal(k) }, fmt.Sprintf("ORateGetTotal (RKey %d)", kt.id(arg(1))), "read", ""}
+		oi = opInfo{func() { eat(stats.VerifBucketGetTotal(k)) }, fmt.Sprintf("ORateGetTotal (RKey %d)", kt.id(arg(1))), "read", ""}
 	case "ga":
-		oi = opInfo{func() { sink += uint64(len(stats.VerifBucketGetAll())) }, "OBucketGetAll", "read", ""}
+		oi = opInfo{func() { eat(uint64(len(stats.VerifBucketGetAll()))) }, "OBucketGetAll", "read", ""}
 	case "gA":
-		oi = opInfo{func() { sink += uint64(len(stats.VerifBucketGetAllTotal())) }, "OBucketGetAllTotal", "read", ""}
+		oi = opInfo{func() { eat(uint64(len(stats.VerifBucketGetAllTotal()))) }, "OBucketGetAllTotal", "read", ""}
 	case "gf":
 		p := strings.Join(f[1:], ".")
-		oi = opInfo{func() { sink += uint64(len(stats.VerifBucketGetFiltered(p))) }, "", "read", "filter:" + p}
+		oi = opInfo{func() { eat(uint64(len(stats.VerifBucketGetFiltered(p)))) }, "", "read", "filter:" + p}
 	case "gc":
 		c, good := cidIdx[arg(1)]
 		if !good {
 			return oi, false
 		}
 		fn := []func() uint64{stats.PreprocessorRoutinesGet, stats.ArchiverRoutinesGet, stats.PostprocessorRoutinesGet, stats.FinisherRoutinesGet}[c]
-		oi = opInfo{func() { sink += fn() }, fmt.Sprintf("OCntGet %s", cidCoq[c]), "read", ""}
+		oi = opInfo{func() { eat(fn()) }, fmt.Sprintf("OCntGet %s", cidCoq[c]), "read", ""}
 	case "gm":
 		m, good := midIdx[arg(1)]
 		if !good {
 			return oi, false
 		}
 		fn := []func() float64{stats.MeanHTTPRespTimeGet, stats.MeanProcessBodyTimeGet, stats.MeanWaitOnFeedbackTimeGet}[m]
-		oi = opInfo{func() { sink += uint64(fn()) }, fmt.Sprintf("OMeanGet %s", midCoq[m]), "read", ""}
+		oi = opInfo{func() { eat(uint64(fn())) }, fmt.Sprintf("OMeanGet %s", midCoq[m]), "read", ""}
 	case "gp":
 		oi = opInfo{func() {
 			if stats.PausedGet() {
-				sink++
+				eat(1)
 			}
 		}, "OPausedGet", "read", ""}
 	case "gw":
-		oi = opInfo{func() { sink += uint64(stats.WarcWritingQueueSizeGet()) }, "OWarcGet", "read", ""}
+		oi = opInfo{func() { eat(uint64(stats.WarcWritingQueueSizeGet())) }, "OWarcGet", "read", ""}
 	case "tui":
-		oi = opInfo{func() { sink += uint64(len(stats.GetMapTUI())) }, "", "read", "tui"}
+		oi = opInfo{func() { eat(uint64(len(stats.GetMapTUI()))) }, "", "read", "tui"}
 	// ---- resets
 	case "ru":
 		oi = opInfo{stats.URLsCrawledReset, "ORateReset RUrls", "reset", "urls"}
@@ -375,6 +378,7 @@ func snapshot(kt *keyTab) string {
 // ---------------------------------------------------------------- race reports
 var raceLog *os.File
 var raceOff int64
+var raceNoted bool
 
 func setupStats() {
 	config.InitConfig()
@@ -408,7 +412,21 @@ func raced() bool {
 	buf := make([]byte, st.Size()-raceOff)
 	raceLog.ReadAt(buf, raceOff)
 	raceOff = st.Size()
-	return bytes.Contains(buf, []byte("DATA RACE"))
+	if bytes.Contains(buf, []byte("DATA RACE")) && bytes.Contains(buf, []byte("internal/pkg/stats/")) {
+		if !raceNoted {
+			raceNoted = true
+			ex := string(buf)
+			if len(ex) > 3000 {
+				ex = ex[:3000]
+			}
+			note("first race report: " + ex)
+			if p := os.Getenv("ZV_RACE_REPORT"); p != "" {
+				os.WriteFile(p, buf, 0o644)
+			}
+		}
+		return true
+	}
+	return false
 }
 
 // ---------------------------------------------------------------- exec
